@@ -143,6 +143,7 @@ fn main() {
 		("u16", "C05", "VERIF_BIN_U16_C05"),
 		("u16", "C06", "VERIF_BIN_U16_C06"),
 		("u16", "C09", "VERIF_BIN_U16_C09"),
+		("u16", "C03", "VERIF_BIN_U16_C03"),
 		("f32", "C02", "VERIF_BIN_F32_C02"),
 		("f32", "C03", "VERIF_BIN_F32_C03"),
 		("f32", "C04", "VERIF_BIN_F32_C04"),
@@ -151,6 +152,7 @@ fn main() {
 		subs.push(("f32", "C15", "VERIF_BIN_F32_C15"));
 		subs.push(("u32", "C04", "VERIF_BIN_U32_C04"));
 		subs.push(("u64", "C01", "VERIF_BIN_U64_C01"));
+		subs.push(("u64", "C03", "VERIF_BIN_U64_C03"));
 	}
 	let scratch_root = std::path::Path::new(&base_bin).parent().unwrap().parent().unwrap().parent().unwrap().join("c20-scratch");
 	let mut sub_states = 0u64;
